@@ -123,6 +123,20 @@ CHECKS = {
             rapid("sinks", "^TestC10Sinks$", 200000, 4, timeout=3000),
         ],
     },
+    "C11": {
+        "quick": [
+            plain("regress", "^TestRegressC11"),
+            rapid("sequential", "^TestC11Sequential$", 6000, 3),
+            rapid("logger", "^TestC11Logger$", 3000, 1),
+            rapid("concurrent", "^TestC11Concurrent$", 300, 2),
+        ],
+        "thorough": [
+            plain("regress", "^TestRegressC11"),
+            rapid("sequential", "^TestC11Sequential$", 100000, 12, timeout=3000),
+            rapid("logger", "^TestC11Logger$", 50000, 2, timeout=3000),
+            rapid("concurrent-race", "^TestC11Concurrent$", 3000, 8, race=True, timeout=3000),
+        ],
+    },
     "C16": {
         "quick": [
             plain("regress", "^TestRegressC16"),
@@ -153,6 +167,7 @@ CHECKS = {
 LEVELS = {"C10": "fault_enumeration"}
 
 RULES = {
+    "C11": "cases = first N and thereafter M in 0..6 plus large values, tick 1ns..10s, sequences of 1-60 entries with level in {-2,-1,0,1,2,5,6,100}, message from an alphabet with pre-computed FNV-colliding pairs, timestamps advancing by {0,1,tick-1,tick,tick+1,...}, wrapped core threshold drawn, entries through the sampler, two With-derived samplers (shared budget) and an independent sampler (own budget), decision hook recorded; a Logger path with a stepped clock; concurrent: one entry opens a window, then 2-8 goroutines x 1-200 entries of the same key inside it. Reference model from the statement using hash/fnv. Non-trivial = (entry exactly at a window end and a dropped entry and a thereafter admission) or a colliding pair sharing a budget. Distinct = distinct (N, M, tick, threshold, class flags, length class).",
     "C06": "cases = configurations drawn from the product core {JSON over a 1 MiB/1 h BufferedWriteSyncer over a recording sink, tee with observer in either order, no-op, sampler that drops everything, level-increased} x threshold -1..7 x development on/off x hook {default, nil, WriteThenNoop, WriteThenGoexit, custom recording} x level {DPanic, Panic, Fatal} x every front end (Logger methods, Log, Check+Write, all Sugar variants, NewStdLogAt Print/Printf/Println/Output, RedirectStdLogAt, zapgrpc Fatal*, globals L/S; completeness checked by reflection); a deterministic sweep of 5130 configurations; child processes re-executing the test binary with the real default actions, a real file and a buffered sink. Non-trivial = entry disabled/no-op/sampled-out, nil or no-op hook, or enabled entry behind the buffer. Distinct = distinct configurations.",
     "C05": "cases = core-composition trees (depth <= 4, tees of 0-3 branches) of observer and JSON IO leaves under tee / increase-level / hooks / pass-all sampler / lazy-with / With wrappers, each enabler an arbitrary subset of all 256 level values (monotone, non-monotone, empty) or a shared AtomicLevel; then a rapid state-machine history: log at any of the 256 levels through Log, Check+Write, level methods, Sugar Log/Logw/Logf/Logln, zapgrpc, slog handler; SetLevel on a shared AtomicLevel to any value; derive children (With, Named, WithLazy, WithOptions(IncreaseLevel/Hooks)); read Enabled for all 256 values, Logger.Level, LevelOf, gRPC V, slog Enabled. Reference model written from the statement decides deliveries, hook calls and marshaling counts after every op. Non-trivial = tree depth >= 2 with a tee whose branches differ in enablement for the logged level or a hook behind a tee, or an AtomicLevel change between two logs. Distinct = distinct (tree shape with enabler kinds, number of derived loggers, class flags).",
     "C08": "cases = metamorphic: a probe call P (generated EncoderConfig, JSON or console, With context, field tree with failing members, any level incl. Panic/Fatal with returning hooks, caller+stack on/off, call depth 0/3/70) issued from one source line before and after a generated history H (1-14 ops on OTHER loggers: logs of very different sizes, namespaces left open, reflected values, error arrays, deep stack captures, terminal levels with returning hooks, encoder clones, double GC, pool poisoning with a sentinel through internal/bufferpool), after GC, after H again; concurrent variant with 2-6 goroutines running histories while P is observed. Oracle = byte-identical output and identical side effects (sink writes, terminal hook and entry hook counts); sentinel never visible. Non-trivial = H uses at least one pool and contains a buffer > 1KiB. Distinct = distinct (probe shape, multiset of history op kinds, probe field kinds).",
@@ -176,6 +191,11 @@ ASSUMPTIONS = {
 TRUST = "Trusted base: Go toolchain/runtime, rapid's generators and shrinker, the reference model/oracle code in /verif/harness/props, and the standard-library packages used as reference implementations. Search-based: absence of a counterexample in the generated cases is not a proof."
 
 META = {
+    "C11": {
+        "technique": "model-based property testing (rapid): generated (level, message, timestamp) histories vs a reference window/budget model with independent FNV hashing; exact-count check under concurrency",
+        "level_text": "Every generated entry is decided by both the sampler and a reference model written from the statement (window opens when the stamp reaches the window end; admitted iff count <= N or (count-N) divisible by M; disabled levels consume nothing; out-of-range levels pass unhooked; derived cores share, independent samplers do not); forwarded-to-core, hook call count and the hook's decision must agree per entry. Concurrently, for entries of one key inside one open window the admitted total, the hook call total and the number of LogSampled decisions must be exact. Exploration over unbounded histories with boundary-biased timestamps.",
+        "level_note": TRUST + " D6: timestamps are generated non-decreasing and >= 0 (the documentation does not define windows for clocks running backwards or before the epoch). Concurrent schedules are sampled.",
+    },
     "C06": {
         "technique": "property-based testing over the configuration product (rapid) with exit stub / recover / Goexit detection in-process, plus generated child-process runs observing the real exit status and file contents",
         "level_text": "For each generated configuration the expected terminal action (exit 1, panic carrying the message, Goexit, exactly one custom hook call, or none for DPanic outside development) must happen through every front end even when the level is disabled, the core is a no-op, the entry is sampled out or a nil/no-op hook was configured; at the instant the action runs the sink below the 1 MiB buffer must already hold the complete line and have been synced, and every accepting tee branch must have the entry. The quantifier's crash_points part is decided by re-executing the test binary as a child with the real os.Exit/panic and reading the log file afterwards.",
